@@ -31,7 +31,24 @@ func (fc *funcCtx) waitGroup(st *State, ins ssa.Instruction, key string, args []
 // ghostOnSend: `note send <ch> after-closed <other>` makes every send on <ch>
 // carry the obligation that <other> has already been closed (a consumer that
 // drains <other> first can then never be blocked by this send).
+// chanElemAscii: `note chan-elements <ch> ascii` — every value sent on <ch> is ASCII
+// text (obligation at each send, assumption at each receive).
+func (fc *funcCtx) chanElemAscii(name string) bool {
+	for _, n := range fc.con.Notes {
+		var ch, what string
+		if _, err := fmtSscanf(n, "chan-elements %s %s", &ch, &what); err == nil && ch == name && what == "ascii" {
+			return true
+		}
+	}
+	return false
+}
+
 func (fc *funcCtx) ghostOnSend(st *State, name string, x *ssa.Send) {
+	if fc.chanElemAscii(name) {
+		if v, ok := fc.val(st, x.X).(Sc); ok && v.S == SStr {
+			fc.oblige(st, "chan-elements", name+"/"+fc.site(x.Pos(), "send"), app("gs.ascii", v.T), "every value sent on "+name+" is ASCII text")
+		}
+	}
 	for _, n := range fc.con.Notes {
 		var ch, other string
 		if _, err := fmtSscanf(n, "send %s after-closed %s", &ch, &other); err == nil && ch == name {
